@@ -219,6 +219,61 @@ pub struct Config {
     pub default_reject: bool,
 }
 
+impl Config {
+    /// 0 = typed setters first, 1 = plain setters first, 2 = interleaved (decided by the two flags so that
+    /// recorded scripts replay the same chain)
+    pub fn setter_order(&self) -> u8 {
+        match (self.late_setters, self.default_reject && self.coster == 1) {
+            (_, true) => 2,
+            (true, _) => 1,
+            _ => 0,
+        }
+    }
+    /// the chain of builder calls, for the builder model: `(new_counters, new_max, calls)`
+    pub fn setters_str(&self, cleanup_ns: u64) -> (usize, i64, String) {
+        let plain = |c: &Config| {
+            vec![
+                format!("bufsize:{}", c.buf_size),
+                format!("items:{}", c.buf_items),
+                format!("metrics:{}", c.metrics as u8),
+                format!("ignore:{}", c.ignore_internal as u8),
+                format!("cleanup:{}", cleanup_ns),
+            ]
+        };
+        match self.setter_order() {
+            1 => {
+                let mut v = plain(self);
+                v.extend(["hasher", "keybuilder", "coster", "validator", "callback"].iter().map(|s| s.to_string()));
+                (self.num_counters, self.max_cost, v.join(";"))
+            }
+            0 => {
+                let mut v: Vec<String> = ["keybuilder", "coster", "validator", "callback", "hasher"].iter().map(|s| s.to_string()).collect();
+                v.extend(plain(self));
+                (self.num_counters, self.max_cost, v.join(";"))
+            }
+            _ => (
+                7,
+                3,
+                vec![
+                    format!("counters:{}", self.num_counters),
+                    format!("bufsize:{}", self.buf_size),
+                    "hasher".to_string(),
+                    format!("metrics:{}", self.metrics as u8),
+                    "keybuilder".to_string(),
+                    format!("max:{}", self.max_cost),
+                    format!("ignore:{}", self.ignore_internal as u8),
+                    "coster".to_string(),
+                    format!("cleanup:{}", cleanup_ns),
+                    "validator".to_string(),
+                    format!("items:{}", self.buf_items),
+                    "callback".to_string(),
+                ]
+                .join(";"),
+            ),
+        }
+    }
+}
+
 /// the cleanup interval every stepped cache is configured with (ticks are driven by the harness)
 pub const CFG_CLEANUP_SECS: u64 = 3600;
 
@@ -237,8 +292,10 @@ pub fn build(cfg: &Config) -> Result<Rig, CacheError> {
     verif::set_parked(true);
     let _ = verif::take_processor_config();
     let cb = RecCallback(Default::default(), cfg.default_reject);
-    let r = if cfg.late_setters {
-        CacheBuilder::<u64, u64>::new(cfg.num_counters, cfg.max_cost)
+    // three chains of builder calls (what `setters_str` reports): plain then typed, typed then plain,
+    // interleaved with num_counters / max_cost given again through their setters
+    let r = match cfg.setter_order() {
+        1 => CacheBuilder::<u64, u64>::new(cfg.num_counters, cfg.max_cost)
             .set_buffer_size(cfg.buf_size)
             .set_buffer_items(cfg.buf_items)
             .set_metrics(cfg.metrics)
@@ -249,9 +306,8 @@ pub fn build(cfg: &Config) -> Result<Rig, CacheError> {
             .set_coster(TableCoster(cfg.coster))
             .set_update_validator(TableValidator(cfg.validator))
             .set_callback(cb.clone())
-            .finalize()
-    } else {
-        CacheBuilder::<u64, u64>::new(cfg.num_counters, cfg.max_cost)
+            .finalize(),
+        0 => CacheBuilder::<u64, u64>::new(cfg.num_counters, cfg.max_cost)
             .set_key_builder(SplitKeyBuilder)
             .set_coster(TableCoster(cfg.coster))
             .set_update_validator(TableValidator(cfg.validator))
@@ -262,7 +318,21 @@ pub fn build(cfg: &Config) -> Result<Rig, CacheError> {
             .set_metrics(cfg.metrics)
             .set_ignore_internal_cost(cfg.ignore_internal)
             .set_cleanup_duration(Duration::from_secs(CFG_CLEANUP_SECS))
-            .finalize()
+            .finalize(),
+        _ => CacheBuilder::<u64, u64>::new(7, 3)
+            .set_num_counters(cfg.num_counters)
+            .set_buffer_size(cfg.buf_size)
+            .set_hasher(DetHasher::default())
+            .set_metrics(cfg.metrics)
+            .set_key_builder(SplitKeyBuilder)
+            .set_max_cost(cfg.max_cost)
+            .set_ignore_internal_cost(cfg.ignore_internal)
+            .set_coster(TableCoster(cfg.coster))
+            .set_cleanup_duration(Duration::from_secs(CFG_CLEANUP_SECS))
+            .set_update_validator(TableValidator(cfg.validator))
+            .set_buffer_items(cfg.buf_items)
+            .set_callback(cb.clone())
+            .finalize(),
     };
     let out = r.map(|cache| {
         let proc_ = TProc::take().expect("parked cache processor");
@@ -326,7 +396,7 @@ impl Rig {
         let (eff_counters, eff_ring) = verif::cache_effective_sizes(&self.cache);
         let snap = self.snapshot();
         let eff = format!(
-            " eff_ignore={} eff_cleanup={} cfgcleanup={} eff_counters={} eff_ringcap={} eff_metrics={} cfgmax={} defrej={}",
+            " eff_ignore={} eff_cleanup={} cfgcleanup={} eff_counters={} eff_ringcap={} eff_metrics={} cfgmax={} defrej={} new_counters={} new_max={} setters={}",
             self.proc_cfg.map_or(self.cfg.ignore_internal as u8, |p| p.0 as u8),
             self.proc_cfg.map_or(CFG_CLEANUP_SECS * 1_000_000_000, |p| p.1),
             CFG_CLEANUP_SECS * 1_000_000_000,
@@ -334,7 +404,10 @@ impl Rig {
             eff_ring,
             snap.metrics.is_some() as u8,
             self.cfg.max_cost,
-            self.cfg.default_reject as u8
+            self.cfg.default_reject as u8,
+            self.cfg.setters_str(CFG_CLEANUP_SECS * 1_000_000_000).0,
+            self.cfg.setters_str(CFG_CLEANUP_SECS * 1_000_000_000).1,
+            self.cfg.setters_str(CFG_CLEANUP_SECS * 1_000_000_000).2
         );
         format!(
             "c.init itemsize={} ignore={} bufcap={} ringcap={} pqcap={} metrics={} max={} samples=5 validator={} coster={} counters={} cfgbuf={} late={}",
@@ -1107,6 +1180,25 @@ pub fn cache_life(out: &mut Out, rng: &mut Rng, cfg: &Config, g: &GenOpts) {
             s.drain();
             s.get(idx, conf);
             s.insert(idx, conf, 1, 0, false);
+            s.drain();
+            s.get(idx, conf);
+            continue;
+        }
+        // a stale insert queued behind the Delete of a colliding key: `New a`, `Delete` of the other key
+        // sharing the index, `New b` are buffered; `New a` is applied; the client updates the key in
+        // place; the rest is applied. The update must stand (C02 "never rolled back", C06, C18).
+        if !closed && g.collisions && conf != 0 && rng.chance(1, 25) {
+            let other = if conf == 1 { 2 } else { 1 };
+            s.drain();
+            s.remove(idx, conf);
+            s.remove(idx, other);
+            s.drain();
+            s.insert(idx, conf, 1, 0, false);
+            s.remove(idx, other);
+            s.insert(idx, conf, 1, 0, false);
+            s.proc_item();
+            s.insert(idx, conf, 1, 0, false);
+            s.get(idx, conf);
             s.drain();
             s.get(idx, conf);
             continue;
